@@ -253,6 +253,69 @@ func (p *pkg) fingerprint(name string) (string, bool) {
 	return hex.EncodeToString(h[:8]), true
 }
 
+func printNode(n any) string {
+	var buf bytes.Buffer
+	cfg := printer.Config{Mode: printer.RawFormat}
+	if err := cfg.Fprint(&buf, token.NewFileSet(), n); err != nil {
+		fatalf("print: %v", err)
+	}
+	return buf.String()
+}
+
+func fingerprintAll(repo string, fps map[string]string) {
+	var dirs []string
+	filepath.WalkDir(repo, func(path string, d os.DirEntry, err error) error {
+		if err != nil || !d.IsDir() {
+			return nil
+		}
+		switch d.Name() {
+		case ".git", "vendor", "testdata", "internal", "node_modules":
+			return filepath.SkipDir
+		}
+		if ms, _ := filepath.Glob(filepath.Join(path, "*.go")); len(ms) > 0 {
+			dirs = append(dirs, path)
+		}
+		return nil
+	})
+	for _, dir := range dirs {
+		rel, _ := filepath.Rel(repo, dir)
+		p := loadPkg(dir)
+		names := make([]string, 0, len(p.files))
+		for n := range p.files {
+			names = append(names, n)
+		}
+		sort.Strings(names)
+		var decls []string
+		for _, n := range names {
+			for _, d := range p.files[n].Decls {
+				switch x := d.(type) {
+				case *ast.FuncDecl:
+					name := x.Name.Name
+					if x.Recv != nil && len(x.Recv.List) == 1 {
+						name = recvName(x.Recv.List[0].Type) + "." + name
+					}
+					key := rel + ":" + name
+					if _, ok := fps[key]; ok {
+						continue
+					}
+					x.Doc = nil
+					h := sha256.Sum256([]byte(printNode(x)))
+					fps[key] = hex.EncodeToString(h[:8])
+				case *ast.GenDecl:
+					if x.Tok == token.IMPORT {
+						continue
+					}
+					x.Doc = nil
+					decls = append(decls, printNode(x))
+				}
+			}
+		}
+		sort.Strings(decls)
+		h := sha256.Sum256([]byte(strings.Join(decls, "\n")))
+		fps[rel+":<declarations>"] = hex.EncodeToString(h[:8])
+	}
+}
+
 func leanStr(s string) string {
 	var b strings.Builder
 	b.WriteByte('"')
@@ -383,6 +446,10 @@ func main() {
 				}
 			}
 		}
+		// every other function of every package of both modules, and per package the text of its
+		// non-function declarations: a change anywhere in a package a property rests on raises that
+		// property's search budget, whether or not the function is one the model map names
+		fingerprintAll(*repo, fps)
 		sort.Strings(missing)
 		res := map[string]any{"fingerprints": fps, "missing": missing}
 		js, _ := json.MarshalIndent(res, "", " ")
